@@ -17,6 +17,9 @@ def run(ctx):
                          "integer-grid data; non-trivial = >= 2 utility rows; distinct = (strategy, data, candidates, bs, seed)")
     ctx.trusted += ["the numeric layer (utility values) is an oracle; -inf entries (DropQuery, SubSamplingWrapper) are ordinary values"]
     ctx.assume += ["selection mode per strategy: sampling (positive mass) for RandomSampling, Badge, Falcun, RegressionTreeBasedAL[random]; max for all others"]
+    ctx.trusted += ["harness/translate/skeleton.py (ast -> Model/SkelDsl.v term per `return simple_batch` site; fail-closed: unrecognised shapes become non-canonical constructors)",
+                    "harness/loops.py: scripted numeric layers (integer coordinates, 0/1 distance matrix, scripted cluster algorithms / discriminator, recorded _d_2 and "
+                    "pre-filtered sets, the library's own _typicality as oracle); tie-breaking noise reproduced from a twin's random_state_ (numpy RandomState)"]
     ctx.coq_props()
     from ..skel import check_skeleton_table
     check_skeleton_table(ctx)
